@@ -34,7 +34,8 @@ def parseOp (tok : String) : Option (Op String) :=
   | _ => none
 
 def errName : Err → String
-  | .elf => "elf" | .noText => "no-text" | .noPcln => "no-pclntab" | .pclnData => "pclntab-data"
+  -- errors that come out of debug/elf, debug/gosym or os carry library texts: one observation class for both
+  | .elf => "read" | .pclnData => "read" | .noText => "no-text" | .noPcln => "no-pclntab"
   | .noFunc => "nofunc" | .noVar => "novar"
 
 def showRes : Res → String
